@@ -424,6 +424,11 @@ def run(ctx):
                necessary="an extra-column cell that is not emitted is author text lost from the XForm")
     sparse_extra_columns_obligation(ctx, r14, "C06.R14")
     rules.append(r14)
+    from .c09 import pulldata_text_obligations
+    r15 = Rule("C06", "C06.R15", "function names typed in a message or label add nothing to the model", floor=3,
+               necessary="an instance element declared because of words in a message is an element added by author text")
+    pulldata_text_obligations(ctx, r15, "C06.R15")
+    rules.append(r15)
     return rules
 
 
